@@ -77,13 +77,16 @@ pub fn gen_sequence(rng: &mut Rng, nmax: usize, len: usize, hostile: bool, is_f3
         }
     };
     let mut prev: Vec<f64> = spec.alpha0.clone();
+    let mut applied: Vec<Vec<f64>> = vec![spec.alpha0.clone()];
     for _ in 0..len {
         match rng.below(12) {
             0..=3 => {
-                // coordinate-wise steps keep the other parameters bit-identical
+                // coordinate-wise steps keep the other parameters bit-identical; sometimes the vector
+                // applied before the previous one comes back (A, B, A)
                 let fresh = draw(rng);
-                let a = next_alpha(rng, &prev, fresh);
+                let a = next_alpha_hist(rng, &applied, fresh);
                 prev = a.clone();
+                applied.push(a.clone());
                 ops.push(Op::Set(a))
             }
             4 => ops.push(Op::SetSame),
@@ -271,6 +274,69 @@ fn twin_case(rng: &mut Rng, case: u64, out: &mut CaseOut, len: usize) {
     }
 }
 
+/// clones of a problem are independent problems: original and clone are moved to different
+/// parameters and queried in interleaved order; each must equal a fresh problem at its own parameters
+fn clone_case<T: Sc>(rng: &mut Rng, case: u64, out: &mut CaseOut) {
+    use crate::sc::dvec;
+    use crate::zoo::{random_zoo, HandModel};
+    use levenberg_marquardt::LeastSquaresProblem;
+    use varpro::solvers::levmar::LevMarProblemBuilder;
+    let stream = "clones";
+    let (mspec, alpha) = random_zoo(rng, 24);
+    let g = gen_problem_for(rng, &GenOpts { force_s: Some(1), ..Default::default() }, mspec.clone(), alpha.clone());
+    let spec = g.spec;
+    let par = rng.chance(0.5);
+    macro_rules! build {
+        ($ctor:ident, $a:expr) => {{
+            let mut b = LevMarProblemBuilder::$ctor(HandModel::<T>::new(&mspec, $a)).observations(dvec::<T>(spec.y.col(0)));
+            if let Some(w) = &spec.w {
+                b = b.weights(dvec::<T>(w));
+            }
+            b.build()
+        }};
+    }
+    macro_rules! body {
+        ($ctor:ident) => {{
+            let a0 = wide_alpha(rng, &alpha);
+            let Ok(mut orig) = build!($ctor, &a0) else { return };
+            let _ = orig.jacobian();
+            let mut copy = orig.clone();
+            for step in 0..rng.int(2, 5) {
+                let (pa, pb) = (wide_alpha(rng, &alpha), wide_alpha(rng, &alpha));
+                match rng.below(3) {
+                    0 => orig.set_params(&dvec::<T>(&pa)),
+                    1 => copy.set_params(&dvec::<T>(&pb)),
+                    _ => {
+                        orig.set_params(&dvec::<T>(&pa));
+                        copy.set_params(&dvec::<T>(&pb));
+                    }
+                }
+                // interleaved queries
+                let order = rng.chance(0.5);
+                let (j1, j2) = if order { let x = orig.jacobian(); let y = copy.jacobian(); (x, y) } else { let y = copy.jacobian(); let x = orig.jacobian(); (x, y) };
+                for (name, p, j) in [("original", &orig, j1), ("clone", &copy, j2)] {
+                    let params: Vec<f64> = p.params().iter().map(|v| v.w()).collect();
+                    let Ok(fresh) = build!($ctor, &params) else { continue };
+                    out.evals += 1;
+                    let same = fresh.jacobian().map(|m| bits_of(&m)) == j.as_ref().map(|m| bits_of(m))
+                        && fresh.residuals().map(|m| bits_of(&m)) == p.residuals().map(|m| bits_of(&m))
+                        && fresh.linear_coefficients().map(|m| bits_of(&m)) == p.linear_coefficients().map(|m| bits_of(&m));
+                    if !same {
+                        violation(out, stream, case, format!("after cloning, the {name} (step {step}) does not report the state of a fresh problem at its own parameters {params:?}"), json!({"problem": spec.to_json()}));
+                        return;
+                    }
+                }
+            }
+            out.nontrivial.push(spec.hash());
+        }};
+    }
+    if par {
+        body!(new_parallel)
+    } else {
+        body!(new)
+    }
+}
+
 fn contains_poison<T: Sc>(bits: &[u64]) -> bool {
     let (aa, f5) = if T::IS_F64 { (crate::poison::PATTERN_AA_64, crate::poison::PATTERN_55_64) } else { (crate::poison::PATTERN_AA_32, crate::poison::PATTERN_55_32) };
     bits.iter().any(|b| *b == aa || *b == f5)
@@ -360,11 +426,12 @@ fn run_tool(ctx: &Ctx, name: &str, cmd: &mut std::process::Command, timeout_s: u
 }
 
 pub fn run(ctx: &Ctx) {
-    ctx.rule("history-twin: one long-lived problem driven through 12 (quick) / 40 (thorough) random operations (wide updates, repeated alpha, non-finite/extreme alpha that empty the cache, injected model failures, repeated queries, failed derivative calls, heap churn) and compared bitwise after every update with a freshly built problem at the reported parameters; repeated queries identical. Shapes: zoo models and table models with M<=8, P<=10, N<=64, S<=4 including dead parameters (identically zero derivative matrices) and zero derivative columns. poison: the same sequences in child processes under allocator poison modes 0xAA / 0x55 / random, outputs bit-identical across modes and free of poison patterns. thorough adds valgrind memcheck over the release build and Miri over small shapes, with a data-dependent branch on every output element. non-trivial = the sequence produced at least one state with values; distinct = hash(problem, first outputs)");
+    ctx.rule("history-twin: one long-lived problem driven through 12 (quick) / 40 (thorough) random operations (wide updates, repeated alpha, non-finite/extreme alpha that empty the cache, injected model failures, repeated queries, failed derivative calls, heap churn) and compared bitwise after every update with a freshly built problem at the reported parameters; repeated queries identical. Shapes: zoo models and table models with M<=8, P<=10, N<=64, S<=4 including dead parameters (identically zero derivative matrices) and zero derivative columns. clones: a problem over a Clone-able hand-written model and its clone are moved to different parameters and queried in interleaved order, each compared bitwise with a fresh problem. poison: the same sequences in child processes under allocator poison modes 0xAA / 0x55 / random, outputs bit-identical across modes and free of poison patterns. thorough adds valgrind memcheck over the release build and Miri over small shapes, with a data-dependent branch on every output element. non-trivial = the sequence produced at least one state with values; distinct = hash(problem, first outputs)");
     ctx.assume("bitwise equality is demanded because the property is about identity/determinism of one deterministic computation on the same stored data");
     let t = ctx.tier;
     let len = t.pick(12, 40);
     ctx.run_cases("history-twin", t.pick(8000, 120000), t.pick(15.0, 900.0), |r, c, o| twin_case(r, c, o, len));
+    ctx.run_cases("clones", t.pick(1500, 40000), t.pick(15.0, 300.0), |r, c, o| if c % 3 == 0 { clone_case::<f32>(r, c, o) } else { clone_case::<f64>(r, c, o) });
     let exe = exe_for_profile("checked");
     run_in_children(ctx, &exe, "checked", "poison", t.pick(3200, 24000), 20.0, t.pick(60.0, 300.0));
     if t == Tier::Thorough && ctx.replay.is_none() {
